@@ -34,6 +34,8 @@ func main() {
 		cmdSched(args)
 	case "copybin":
 		cmdCopyBin(args)
+	case "writer":
+		cmdSimple(args, func(b run.M, rng *rand.Rand) []run.M { return run.PlayWriter(b) })
 	default:
 		if f, ok := extraCmds[cmd]; ok {
 			f(args)
@@ -226,4 +228,32 @@ func cmdCopyBin(args []string) {
 	}
 	tw.close()
 	fmt.Printf("played %d scenarios, %d trace lines\n", len(behs), tw.lines)
+}
+
+// cmdSimple: drivers of the public API of a lower layer (no server involved).
+func cmdSimple(args []string, play func(run.M, *rand.Rand) []run.M) {
+	fs := flag.NewFlagSet("simple", flag.ExitOnError)
+	in := fs.String("in", "", "behaviours (ndjson)")
+	out := fs.String("out", "trace.ndjson", "abstract trace (ndjson)")
+	seed := fs.Int64("seed", 1, "seed")
+	progress := fs.String("progress", "", "progress file")
+	seedIndex := fs.Int("seedindex", 0, "seed index offset")
+	fs.String("proj", "", "unused")
+	fs.Parse(args)
+	behs := readBehaviours(*in)
+	tw := newTraceWriter(*out)
+	var pf *os.File
+	if *progress != "" {
+		pf, _ = os.Create(*progress)
+	}
+	for i, b := range behs {
+		if pf != nil {
+			pf.Seek(0, 0)
+			fmt.Fprintf(pf, "%-12d\n", i)
+		}
+		rng := rand.New(rand.NewSource(*seed*1000003 + int64(i+*seedIndex)))
+		tw.writeExec(play(b, rng), i)
+	}
+	tw.close()
+	fmt.Printf("played %d behaviours, %d trace lines\n", len(behs), tw.lines)
 }
